@@ -1,1 +1,173 @@
-/- C10: property theorems (not yet built). -/
+/- C10 — Stdlib array, set and higher-order functions match their reference definitions.
+   Property theorems only (helper lemmas live in Proofs/Std{Arr,Set,Sort}.lean).
+
+   The algorithms are polymorphic in the element type `α`; a key function `key : α → Option κ` and a
+   comparison `cmp : κ → κ → Option Ordering` may fail (`none` = the jsonnet call raised).  The
+   hypotheses `hk`/`hc` say "the key function is total (`k`) and the keys are totally ordered
+   (`ord`, a `Std.TransCmp`)" — the situation the documentation of `std.sort`/`std.set*` describes. -/
+import JrsVerif.Proofs.StdArr
+import JrsVerif.Proofs.StdSet
+import JrsVerif.Proofs.StdSort
+import JrsVerif.Proofs.StdUniq
+
+namespace JrsVerif.StdArr
+open Std
+
+variable {α κ : Type}
+
+/-! ### 1. sort -/
+
+/-- C10.1 `sort_keyf`/`sort_identity` structure (key all elements, sort pairs with the std sort, drop
+    keys): never fails for a total key into a total order, and the result is a permutation of the
+    input, ordered by key, and stable (elements with equivalent keys keep their input order). -/
+theorem sort_perm_sorted_stable {ord : κ → κ → Ordering} [TransCmp ord]
+    {key : α → Option κ} {cmp : κ → κ → Option Ordering} {k : α → κ}
+    (hk : ∀ x, key x = some (k x)) (hc : ∀ p q, cmp p q = some (ord p q)) (xs : List α) :
+    ∃ r, sortByKeyM key cmp xs = some r ∧ r.Perm xs ∧
+      r.Pairwise (fun a b => (ord (k a) (k b)).isLE) ∧
+      ∀ c, r.filter (fun a => ord (k a) c == .eq) = xs.filter (fun a => ord (k a) c == .eq) :=
+  sortByKeyM_total ord hk hc xs
+
+/-- non-vacuity: pairs sorted by first component with ties; the tie keeps input order -/
+example : sortByKeyM (fun (p : Int × String) => some p.1) (fun a b => some (compare a b))
+    [(2, "x"), (1, "a"), (2, "y"), (1, "b")] = some [(1, "a"), (1, "b"), (2, "x"), (2, "y")] := by
+  decide
+
+/-- C10.1b the type-specialised fast paths (`get_sort_type` → number / string / generic) never
+    change the outcome: whenever the type scan succeeds, `sort_keyf`/`sort_identity` on jsonnet
+    values is the generic keyed sort with the jsonnet comparison `<`. -/
+theorem sort_dispatch_transparent (key : V → Option V) (xs : List V) (vk : List (V × V))
+    (t : Model.SortType) (hvk : withKeys key xs = some vk)
+    (ht : Model.sortTypeGo .unknown (vk.map Prod.snd) = some t) :
+    Model.sortCore key xs = sortByKeyM key cmpV xs :=
+  Model.sortCore_eq key xs vk t hvk ht
+
+/-- C10.1c ... and the type scan fails ("sort elements should have the same types") only when a
+    number key and a string key are both present — keys that `<` cannot compare either: mixed types
+    are an error, never a mis-sort. -/
+theorem sort_type_error_only_mixed (ks : List V) (h : Model.sortTypeGo .unknown ks = none) :
+    ∃ n s, V.num n ∈ ks ∧ V.str s ∈ ks ∧ cmpV (.num n) (.str s) = none := by
+  obtain ⟨⟨n, hn⟩, ⟨s, hs⟩⟩ := Model.sortTypeGo_none ks h
+  exact ⟨n, s, hn, hs, rfl⟩
+
+example : okIs (Model.sort [.num 3, .num 1, .num 2] none) [.num 1, .num 2, .num 3] = true ∧
+    (Model.sort [.num 3, .str "a"] none).isNone = true ∧
+    (Model.sort [.num 3, .null] none).isNone = true ∧
+    okIs (Model.sort [.num 2, .num 3, .num 0, .num 1] (some "mod2"))
+      [.num 2, .num 0, .num 3, .num 1] = true := by
+  refine ⟨?_, ?_, ?_, ?_⟩ <;> decide
+
+/-- C10.1d `builtin_set` structure (`sort_keyf`, then `uniq_keyf` with key equality): for a total key
+    into a total order the result is a set (strictly increasing keys), consists of input elements,
+    and represents every key of the input. -/
+theorem set_is_set {ord : κ → κ → Ordering} [TransCmp ord]
+    {key : α → Option κ} {cmp : κ → κ → Option Ordering} {k : α → κ}
+    (hk : ∀ x, key x = some (k x)) (hc : ∀ p q, cmp p q = some (ord p q)) (xs : List α) :
+    ∃ r, (sortByKeyM key cmp xs).bind (uniqM key (fun p q => ord p q == .eq)) = some r ∧
+      SSorted k ord r ∧ (∀ z ∈ r, z ∈ xs) ∧ (∀ x ∈ xs, ∃ z ∈ r, ord (k x) (k z) = .eq) :=
+  setM_props hk hc xs
+
+example : (sortByKeyM (fun (n : Int) => some (n % 3)) (fun a b => some (compare a b)) [5, 3, 1, 4, 6]).bind
+    (uniqM (fun (n : Int) => some (n % 3)) (fun p q => compare p q == .eq)) = some [3, 1, 5] := by
+  decide
+
+/-! ### 2. set operations -/
+
+/-- C10.2a `builtin_set_inter` = members of `a` whose key occurs in `b`; the result is a set -/
+theorem setInter_spec {ord : κ → κ → Ordering} [TransCmp ord]
+    {key : α → Option κ} {cmp : κ → κ → Option Ordering} {k : α → κ}
+    (hk : ∀ x, key x = some (k x)) (hc : ∀ p q, cmp p q = some (ord p q))
+    (a b : List α) (ha : SSorted k ord a) (hb : SSorted k ord b) :
+    interM key cmp a b = some (interSpec k ord a b) ∧ SSorted k ord (interSpec k ord a b) :=
+  ⟨interM_eq hk hc a b ha hb, List.Pairwise.sublist List.filter_sublist ha⟩
+
+/-- C10.2b `builtin_set_diff` = members of `a` whose key does not occur in `b`; the result is a set -/
+theorem setDiff_spec {ord : κ → κ → Ordering} [TransCmp ord]
+    {key : α → Option κ} {cmp : κ → κ → Option Ordering} {k : α → κ}
+    (hk : ∀ x, key x = some (k x)) (hc : ∀ p q, cmp p q = some (ord p q))
+    (a b : List α) (ha : SSorted k ord a) (hb : SSorted k ord b) :
+    diffM key cmp a b = some (diffSpec k ord a b) ∧ SSorted k ord (diffSpec k ord a b) :=
+  ⟨diffM_eq hk hc a b ha hb, List.Pairwise.sublist List.filter_sublist ha⟩
+
+/-- C10.2c `builtin_set_union` = `sort (a ++ (b \ a))` by key (values of `a` win); the result is a
+    set and its members are exactly the members of `a` together with the members of `b` whose key
+    does not occur in `a`. -/
+theorem setUnion_spec {ord : κ → κ → Ordering} [TransCmp ord]
+    {key : α → Option κ} {cmp : κ → κ → Option Ordering} {k : α → κ}
+    (hk : ∀ x, key x = some (k x)) (hc : ∀ p q, cmp p q = some (ord p q))
+    (a b : List α) (ha : SSorted k ord a) (hb : SSorted k ord b) :
+    unionM key cmp a b = some (unionSpec k ord a b) ∧ SSorted k ord (unionSpec k ord a b) ∧
+      ∀ z, z ∈ unionSpec k ord a b ↔ (z ∈ a ∨ z ∈ diffSpec k ord b a) := by
+  refine ⟨unionM_eq hk hc a b ha hb, unionSpec_ssorted a b ha hb, fun z => ?_⟩
+  simp [unionSpec, sortSpec]
+
+/-- C10.2d `builtin_set_member` (binary search with `midpoint`, three-way comparison) = membership
+    of the key in the set, for sets of any length -/
+theorem setMember_spec {ord : κ → κ → Ordering} [TransCmp ord]
+    {key : α → Option κ} {cmp : κ → κ → Option Ordering} {k : α → κ}
+    (hk : ∀ x, key x = some (k x)) (hc : ∀ p q, cmp p q = some (ord p q))
+    (x : α) (arr : List α) (hs : SSorted k ord arr) :
+    setMemberM key cmp x arr = some (setMemberSpec k ord x arr) :=
+  setMemberM_eq hk hc x arr hs
+
+example : setMemberM (fun (n : Int) => some n) (fun a b => some (compare a b)) 7 [1, 3, 7, 9] = some true ∧
+    setMemberM (fun (n : Int) => some n) (fun a b => some (compare a b)) 4 [1, 3, 7, 9] = some false := by
+  decide
+
+/-- non-vacuity: sets of pairs keyed by the first component, overlapping keys, one side exhausted
+    first -/
+example :
+    let key := fun (p : Int × Int) => some p.1
+    let cmp := fun (a b : Int) => some (compare a b)
+    let a : List (Int × Int) := [(1, 10), (3, 30), (4, 40)]
+    let b : List (Int × Int) := [(0, 5), (3, 35), (7, 75), (9, 95)]
+    SSorted Prod.fst compare a ∧ SSorted Prod.fst compare b ∧
+    unionM key cmp a b = some [(0, 5), (1, 10), (3, 30), (4, 40), (7, 75), (9, 95)] ∧
+    interM key cmp a b = some [(3, 30)] ∧
+    diffM key cmp a b = some [(1, 10), (4, 40)] := by
+  refine ⟨?_, ?_, ?_, ?_, ?_⟩
+  · simp [SSorted]; decide
+  · simp [SSorted]; decide
+  · simp [unionM]; decide
+  · simp [interM]; decide
+  · simp [diffM]; decide
+
+/-! ### 3. removeAt / remove -/
+
+/-- C10.3a `builtin_remove_at` (negative guard, two slices, checked `at + 1`, concatenation) equals
+    `[arr[j] for j in 0..len-1 if j != at]` for every integer index — negative, in range, past the
+    end, `i32::MAX` — on arrays whose length fits `i32`. -/
+theorem removeAt_spec (arr : List α) (at_ : Int) (hlen : (arr.length : Int) < 2 ^ 31) :
+    removeAtM arr at_ = removeAtSpec arr at_ :=
+  removeAtM_eq arr at_ hlen
+
+/-- the code before the repair did not satisfy this: the defect witness -/
+theorem removeAt_orig_defect :
+    removeAtOrig [1, 2, 3] (-1) = [1, 2, 1, 2, 3] ∧ removeAtSpec [1, 2, 3] (-1 : Int) = [1, 2, 3] := by
+  decide
+
+/-- C10.3b `builtin_remove` (find the first equal element, then `removeAt`) drops exactly the first
+    element equal to `elem` -/
+theorem remove_spec (p : α → Bool) (arr : List α) (hlen : (arr.length : Int) < 2 ^ 31) :
+    removeM p arr = removeSpec p arr :=
+  removeM_eq p arr hlen
+
+example : removeAtM [10, 11, 12] 1 = [10, 12] ∧ removeAtM [10, 11, 12] 3 = [10, 11, 12] ∧
+    removeAtM [10, 11, 12] (2 ^ 31 - 1) = [10, 11, 12] ∧
+    removeM (· == 11) [10, 11, 12, 11] = [10, 12, 11] := by decide
+
+/-! ### 4. flattenArrays / join -/
+
+/-- C10.4a the balanced `flatten_inner` split equals the left fold of `++` -/
+theorem flatten_spec (arrs : List (List α)) : flattenM arrs = flattenSpec arrs :=
+  flattenM_eq arrs
+
+/-- C10.4b the `std.join` loop with its `first` flag: null items are skipped and the separator
+    stands exactly between consecutive kept items -/
+theorem join_spec (sep : List α) (items : List (Option (List α))) :
+    joinM sep items = joinSpec sep items :=
+  joinM_eq sep items
+
+example : joinM [0] [none, some [1], none, some [], some [2, 3], none] = [1, 0, 0, 2, 3] := by decide
+
+end JrsVerif.StdArr
